@@ -133,7 +133,31 @@ def gen_cases(rng, tier):
                     pats.append([f, r_])
                 fs.append({'name': rng.pick(names + (['zz'] if rng.chance(0.05) else [])), 'patterns': pats})
             c['fields'] = fs
+        if rng.chance(0.3):
+            # rows reach the step with their keys in another order than the schema lists the fields (round 8)
+            c['keyorder'] = rng.pick(['rotate', 'reverse'])
+        if k in ('select', 'delete', 'rename') and rng.chance(0.25):
+            # the same specification was used a moment ago, in the same process, with the other reading of the names
+            # (regular expressions / literal names): nothing of that may carry over
+            c['warm'] = True
         cases.append(c)
+    # systematically: names that mean different things as literals and as patterns, used both ways one after the other;
+    # renaming and deleting behind a step that reorders the rows' keys
+    for names, f in ((['a.c', 'abc', 'k'], 'a.c'), (['x+', 'xx', 'k'], 'x+'), (['k', 'k.', 'kk'], 'k.')):
+        rows = [dict((n, 'v%d%d' % (i, j)) for j, n in enumerate(names)) for i in range(2)]
+        for regex in (True, False):
+            cases.append({'kind': 'delete', 'names': names, 'rows': rows_enc(rows), 'types': dict((n, 'string') for n in names), 'two': False,
+                          'regex': regex, 'fields': [f], 'warm': True})
+            cases.append({'kind': 'select', 'names': names, 'rows': rows_enc(rows), 'types': dict((n, 'string') for n in names), 'two': False,
+                          'regex': regex, 'fields': [f], 'warm': True})
+    for ko in ('rotate', 'reverse'):
+        names = ['a', 'b', 'c']
+        rows = [{'a': 1, 'b': 'x', 'c': True}, {'a': 2, 'b': 'y', 'c': False}]
+        types = {'a': 'integer', 'b': 'string', 'c': 'boolean'}
+        cases.append({'kind': 'rename', 'names': names, 'rows': rows_enc(rows), 'types': types, 'two': False, 'regex': False, 'map': [['a', 'first']], 'keyorder': ko})
+        cases.append({'kind': 'rename', 'names': names, 'rows': rows_enc(rows), 'types': types, 'two': False, 'regex': True, 'map': [['(a|c)', r'n_\1']], 'keyorder': ko})
+        cases.append({'kind': 'delete', 'names': names, 'rows': rows_enc(rows), 'types': types, 'two': False, 'regex': False, 'fields': ['b'], 'keyorder': ko})
+        cases.append({'kind': 'select', 'names': names, 'rows': rows_enc(rows), 'types': types, 'two': False, 'regex': False, 'fields': ['c', 'a'], 'keyorder': ko})
     # systematically: sum and join over two columns, with a second selected resource that lacks one of them
     for op, w in (('sum', ''), ('join', '-')):
         for drop in ('c1', 'c2'):
@@ -145,6 +169,16 @@ def gen_cases(rng, tier):
 
 def fmt_string(parts):
     return ''.join(p[1].replace('{', '{{').replace('}', '}}') if p[0] == 'lit' else '{' + p[1] + '}' for p in parts)
+
+
+def input_rows(case):
+    """the rows as they reach the step under test: a preceding step may have re-ordered their keys"""
+    rows = rows_dec(case['rows'])
+    if case.get('keyorder') == 'rotate':
+        rows = [dict(list(r.items())[1:] + list(r.items())[:1]) if len(r) > 1 else r for r in rows]
+    elif case.get('keyorder') == 'reverse':
+        rows = [dict(reversed(list(r.items()))) for r in rows]
+    return rows
 
 
 def step_of(case):
@@ -191,8 +225,15 @@ def run_impl(case):
         keep = [n for n in case['names'] if n != drop]
         res.append(mk_resource('narrow2', keep, [dict((k_, v_) for k_, v_ in r.items() if k_ != drop) for r in rows],
                                types=dict((n, case['types'][n]) for n in keep)))
+    if case.get('warm') and case['kind'] in ('select', 'delete', 'rename'):
+        try:
+            with quiet():
+                Flow(Src(copy.deepcopy(res)), step_of(dict(case, regex=not case['regex']))).results()
+        except Exception:
+            pass
+    pre = {'rotate': [rotate_keys], 'reverse': [reverse_keys]}.get(case.get('keyorder'), [])
     # (also read with all resources taken before any row is read)
-    out = run_stream(res, [step_of(case)], collect=True)
+    out = run_stream(res, pre + [step_of(case)], collect=True)
     if 'error' in out:
         return {'error': out['error'], 'exc': out['exc']}
     r = {'rows': rows_enc(out['rows'][0]), 'fields': field_names(out['dp'], 0),
@@ -216,7 +257,7 @@ def pystr(v):
 def expected(case):
     """the property, directly: ('ok', fields, rows) | ('err',) | ('skip',)"""
     names = case['names']
-    rows = rows_dec(case['rows'])
+    rows = input_rows(case)
     k = case['kind']
     if k == 'select':
         remaining = list(names)
@@ -335,7 +376,7 @@ def oracle(case, out):
         if set(r.keys()) != set(out['fields']):
             return '%s: row keys %r disagree with the schema %r' % (k, list(r.keys()), out['fields'])
     if case['two']:
-        if out['other_fields'] != case['names'] or not same_rows(rows_dec(out['other_rows']), rows_dec(case['rows'])):
+        if out['other_fields'] != case['names'] or not same_rows(rows_dec(out['other_rows']), input_rows(case)):
             return '%s: the unselected resource was changed' % k
     return None
 
@@ -361,7 +402,7 @@ def coq_cop(f):
 def coq_term(case, out):
     k = case['kind']
     names = cstrs(case['names'])
-    rows = rows_dec(case['rows'])
+    rows = input_rows(case)
     err = out.get('error')
     try:
         if k in ('select', 'delete'):
